@@ -20,6 +20,7 @@ CONSTANTS
   FinMax = 1
   PostA = {"Y1", "XE", "R1"}
   PostLen = 1
+  WrappedSet = {"none"}
 INVARIANT TypeOK
 INVARIANT LockStepModF7
 INVARIANT NoOrphan
